@@ -40,6 +40,7 @@ def check(ctx):
     ctx.run(r17_3)
     ctx.run(r17_5)
     ctx.run(r17_7)
+    ctx.run(r17_8)
     # R17.4
     run = c03.index_run(ctx, "R17.4")
     info = c03.r03_1(ctx, run)
@@ -418,6 +419,46 @@ def r17_5(ctx):
     ctx.require_count("R17.5", n, 8, "gaftools/", "operations on GAF handles")
     if not any(i.rule == "R17.5" and i.verdict == "violated" for i in ctx.instances):
         ctx.holds("R17.5", "gaftools/", f"all {n} operations on GAF handles take whole lines (iteration / readline) or position the handle (tell / seek / close)")
+
+
+def r17_8(ctx):
+    """Sibling branches for the two kinds of line (bytes from a BGZF handle, str from a text handle) compute the same thing:
+    `if gz: x = E(line.decode(..)) else: x = E'(line)` (also the try / except TypeError spelling) must have E == E' once
+    the decode is taken out.  A strip / split that only one of them applies makes the result depend on the compression."""
+    import copy
+
+    repo = ctx.repo
+
+    class Undecode(ast.NodeTransformer):
+        def visit_Call(self, c):
+            self.generic_visit(c)
+            if isinstance(c.func, ast.Attribute) and c.func.attr == "decode":
+                return c.func.value
+            if isinstance(c.func, ast.Name) and c.func.id == "str" and len(c.args) >= 2 and isinstance(c.args[0], (ast.Name, ast.Attribute)):
+                return c.args[0]
+            return c
+
+    def plain(e):
+        return norm(ast.fix_missing_locations(Undecode().visit(copy.deepcopy(e))))
+
+    n = 0
+    for f in repo.all_funcs():
+        if f.module.name in ("gaftools.gfa", "gaftools.timer", "gaftools.__main__"):
+            continue
+        pairs = []
+        for st in walk_own(f.node):
+            if isinstance(st, ast.If) and len(st.body) == 1 and len(st.orelse) == 1 and isinstance(st.body[0], ast.Assign) and isinstance(st.orelse[0], ast.Assign) and norm(st.body[0].targets[0]) == norm(st.orelse[0].targets[0]):
+                pairs.append((st, st.body[0].value, st.orelse[0].value))
+            if isinstance(st, ast.Try) and len(st.body) == 1 and len(st.handlers) == 1 and len(st.handlers[0].body) == 1 and isinstance(st.body[0], ast.Assign) and isinstance(st.handlers[0].body[0], ast.Assign) and norm(st.body[0].targets[0]) == norm(st.handlers[0].body[0].targets[0]) and st.handlers[0].type is not None and "TypeError" in norm(st.handlers[0].type):
+                pairs.append((st, st.body[0].value, st.handlers[0].body[0].value))
+        for st, a, b in pairs:
+            da, db = ".decode(" in norm(a), ".decode(" in norm(b)
+            if da == db:
+                continue
+            n += 1
+            ok = plain(a) == plain(b)
+            ctx.check(ok, "R17.8", f.where(st), "the bytes branch and the str branch of a line compute the same value once the decode is taken out (compressed and plain input are cut up alike)", key_of(f, f"decode-siblings:{plain(a)[:40]}|{plain(b)[:40]}"), bytes_branch=norm(a if da else b)[:80], str_branch=norm(b if da else a)[:80])
+    ctx.require_count("R17.8", n, 2, "gaftools/", "sibling branches for bytes / str lines")
 
 
 def r17_7(ctx):
